@@ -161,6 +161,7 @@ impl Reporter {
     let dir = format!("{VERIF_ROOT}/replays/{}", self.prop);
     let _ = std::fs::create_dir_all(&dir);
     let mut unknown = 0u64;
+    let mut unknown_classes = 0u64;
     let mut known_cnt = 0u64;
     let mut lines = vec![];
     let mut summary = vec![];
@@ -177,6 +178,11 @@ impl Reporter {
         }
         None => {
           unknown += g.count;
+          unknown_classes += 1;
+          if unknown_classes > 20 {
+            summary.push(json!({"sig": sig, "known": false, "count": g.count, "example": g.example}));
+            continue;
+          }
           let path = format!("{dir}/{}_{}.json", self.args.tier, i);
           std::fs::write(&path, serde_json::to_string_pretty(&replay).unwrap())
             .unwrap_or_else(|e| machinery(&format!("cannot write replay {path}: {e}")));
@@ -211,6 +217,9 @@ impl Reporter {
       .unwrap_or_else(|e| machinery(&format!("cannot write evidence {evpath}: {e}")));
     for l in &lines {
       println!("{l}");
+    }
+    if unknown_classes > 20 {
+      println!("({} further violation classes are listed in the evidence file only)", unknown_classes - 20);
     }
     println!(
       "{}: tier={} wall={:.1}s unknown_violations={} known_finding_cases={}",
